@@ -409,7 +409,8 @@ def run_shapes(prop, tier, seed):
     rng = random.Random(seed)
     bounds = shapes_bounds(tier)
     if prop == "C07":
-        bounds = dict(maxe1=2, maxe2=2, prefixed=0, nenum=10) if tier == "quick" else dict(maxe1=3, maxe2=2, prefixed=1)
+        # thorough: all 64 partially connected configurations x both interpreter modes over a 13-unit sub-universe
+        bounds = dict(maxe1=2, maxe2=2, prefixed=0, nenum=10) if tier == "quick" else dict(maxe1=2, maxe2=2, prefixed=0, nenum=13)
     res = tlc_shapes("pairs", **bounds)
     require_ok(res, "MC_ConvShapes")
     v.add_tlc(res, "MC_ConvShapes %s" % bounds)
